@@ -86,8 +86,8 @@ def main():
     m = {
         "version": 1,
         "setup_cmd": "cd /verif/mc && GOFLAGS=-mod=mod GOPROXY=off GOSUMDB=off GOTOOLCHAIN=local go build -o ../bin/pmc ./cmd/pmc",
-        "hooks": {"guard": "verif",
-                  "enable": "no hooks are committed to /repo: checks link the real packages through a go.mod replace (=> /repo); C17's map-iteration scheduler is generated at check time into a go build -overlay",
+        "hooks": {"guard": "verifsched",
+                  "enable": "no hook is committed to /repo (source_commits is empty): checks link the real packages through a go.mod replace (=> /repo); C17's map-iteration scheduler is generated from the current tree at check time by mc/internal/instr and compiled with `go build -tags verifsched -overlay <scratch>/overlay.json ./cmd/sched`; the tag guards only harness code",
                   "baseline_off_cmd": "cd /repo && GOFLAGS=-mod=mod GOPROXY=off go test -vet=off -count=1 ./...",
                   "source_commits": [], "add_only": True},
         "engines": [{"name": "pmc", "path": "/verif/mc", "serves_properties": ENGINE_PROPS,
